@@ -32,6 +32,17 @@ CHECKS = {
              "model-independent monitors (deref equals indexing, const==mutable, comparisons consistent with differences).",
         design_ref="5/C02", technique="Coq proof (invariant by induction over iterator-operation traces, mixed-radix lemmas) + "
                                       "extracted-model vs library differential on iterator walks"),
+    "C19": dict(
+        text="Theorem C19_rebase_transparent (Coq, all ranks/extents/index bases/op sequences incl. reindexed and blocked): a "
+             "program on a root built from explicit index extensions is, operation by operation, its zero-based twin program "
+             "with shifted index arguments; same base, sizes, strides, num_elements; element at idx = twin element at idx - "
+             "firsts; the twin consists of C01 operations so C01 applies; C02's iterator/elements theorems are stated for any "
+             "index base. Excluded and named: slicing an empty dimension with non-zero offset (designates nothing) and "
+             "diagonal() on re-based views (C19_diagonal_refuted; known finding). Tie: the C01/C02 correspondence on roots "
+             "with bases -3..3 plus a model-independent monitor running the library on the twin program.",
+        design_ref="5/C19", technique="Coq proof (per-operation simulation between a re-based view and its normalised twin, "
+                                      "induction over operation sequences) + differential on re-based programs + library-vs-"
+                                      "library twin monitor"),
 }
 
 NOT_YET = {
